@@ -146,14 +146,14 @@ static std::string gen(const std::string &prop, uint64_t base, uint64_t idx, boo
             unsigned am = (unsigned)r.below(2), dt = (unsigned)r.below(11);
             static const unsigned nb[] = {1, 1, 2, 2, 4, 4, 8, 8, 1, 4, 8};
             if (r.chance(0.4)) {  // string or array value: 16-bit byte count, then the elements in network byte order
-                static const unsigned vdt[] = {0xB, 0x80, 0x81, 0x82, 0x83, 0x84, 0x85, 0x86, 0x87, 0x88, 0x89, 0x8A};
-                static const unsigned ves[] = {1, 1, 1, 2, 2, 4, 4, 8, 8, 1, 4, 8};
-                unsigned vi = (unsigned)r.below(12), es = ves[vi];
+                static const unsigned vdt[] = {0xB, 0x80, 0x81, 0x82, 0x83, 0x84, 0x85, 0x86, 0x87, 0x88, 0x89, 0x8A, 0x8B};
+                static const unsigned ves[] = {1, 1, 1, 2, 2, 4, 4, 8, 8, 1, 4, 8, 1};
+                unsigned vi = (unsigned)r.below(13), es = ves[vi];
                 unsigned plen2 = am == 1 ? 0 : (unsigned)r.below(std::min(200, b.pay / 2));
                 unsigned roomv = (unsigned)b.pay - (am == 1 ? 4 : 2 + plen2) - 2 - 8;
                 unsigned nel = (unsigned)(r.chance(0.5) ? r.below(8) : r.below(roomv / es + 1));
                 line(strf("op b=%d vssenc am=%u dt=%u plen=%u sid=0x%x v=0x0 pseed=0x%llx alen=%u", b.id, am, vdt[vi], plen2, (unsigned)r.next(), (unsigned long long)r.next(), nel * es));
-                if (r.coin()) { line(strf("op b=%d vssdec", b.id)); i++; }
+                if (r.coin()) { line(strf("op b=%d vssdec q=%d", b.id, (int)r.coin())); i++; }
                 continue;
             }
             unsigned room = (unsigned)b.pay - nb[dt] - 2;
@@ -179,7 +179,7 @@ static std::string gen(const std::string &prop, uint64_t base, uint64_t idx, boo
             uint32_t bid = (uint32_t)(r.chance(0.4) ? (uint32_t[]){0, 1, 0x7ff, 0x800, 0x1fffffff, 0x20000000, 0xffffffffu}[r.below(7)] : r.next());
             // (a data-less frame is also built with a null payload pointer)
             line(strf("op b=%d build kind=%s id=0x%x len=%u variant=%d dseed=0x%llx%s", b.id, kinds[r.below(4)], bid, len, (int)(r.chance(0.85) ? r.below(2) : (unsigned[]){2, 3, 4, 8, 16, 255}[r.below(6)]), (unsigned long long)r.next(),
-                      (len == 0 && r.coin()) ? " nullp=1" : ""));
+                      (len == 0 && r.coin()) ? " nullp=1" : r.chance(0.3) ? " fixed=1" : ""));
             continue;
         }
         unsigned k = (unsigned)r.below(100);
@@ -567,9 +567,9 @@ static void exec(const std::string &text, bool verbose) {
             if (std::string(f->name) != "Vss" || b.parent >= 0) continue;
             static const unsigned nb[] = {1, 1, 2, 2, 4, 4, 8, 8, 1, 4, 8};
             unsigned am = (unsigned)kv.u64("am") & 1, dt = (unsigned)kv.u64("dt");
-            bool var = dt == 0xB || (dt >= 0x80 && dt <= 0x8A);
+            bool var = dt == 0xB || (dt >= 0x80 && dt <= 0x8B);  // (0x8B: a packed string array travels as one opaque block of bytes)
             if (dt > 10 && !var) continue;
-            static const unsigned ves[] = {1, 1, 2, 2, 4, 4, 8, 8, 1, 4, 8};
+            static const unsigned ves[] = {1, 1, 2, 2, 4, 4, 8, 8, 1, 4, 8, 1};
             size_t es = dt == 0xB ? 1 : var ? ves[dt - 0x80] : 0, alen = var ? kv.u64("alen") : 0;
             if (var && (alen % es || alen > 65535)) continue;
             size_t plen = am == 1 ? 0 : kv.u64("plen"), pathbytes = am == 1 ? 4 : 2 + plen, n = var ? 2 + alen : nb[dt];
@@ -614,6 +614,15 @@ static void exec(const std::string &text, bool verbose) {
             uint8_t *ap = adst.data();
             ev("vssdec", strf("b=%d am=%u dt=0x%x", b.id, b.vss_am, b.vss_dt));
             buf_protect(a.raw, a.size, true);
+            if (kv.u64("q", 0)) {  // a string or array is usually decoded twice: first without destination, to learn the length
+                DIRTY();
+                (void)drv_vss_decode(pdu, pp, nullptr);
+                per_entry["entry.vss_decode.length_query"]++;
+                buf_protect(a.raw, a.size, false);
+                check_bytes("Vss.<decode>:query", "after asking the decoder for the length only (null destination; a read)");
+                if (adst[0] != 0x7e) violation("read:Vss.<decode>:query", "the length query wrote to a destination it was not given");
+                buf_protect(a.raw, a.size, true);
+            }
             DIRTY();
             (void)drv_vss_decode(pdu, pp, ap);
             buf_protect(a.raw, a.size, false);
@@ -659,11 +668,14 @@ static void exec(const std::string &text, bool verbose) {
             auto m_finalize = [&] { memset(mpdu + hdr + len, 0, pad); mset("ACF_MSG_LENGTH", (hdr + len + pad) / 4); mset("PAD", pad); };
             int bk = (kind == "setpayload" && !brief) ? 0 : kind == "finalize" ? 1 : 2;
             uint8_t *srcp = (len == 0 && kv.u64("nullp", 0)) ? nullptr : src.data();
+            bool fixed = kv.u64("fixed", 0) && srcp;
             DIRTY();
             if (bk == 0) { drv_can_setpayload(pdu, srcp, (uint16_t)len); m_payload(); }
             else if (bk == 1) { if (brief) drv_canbrief_finalize(pdu, (uint16_t)len); else drv_can_finalize(pdu, (uint16_t)len); m_finalize(); }
             else {
-                if (brief) drv_canbrief_setpayload(pdu, cid, srcp, (uint16_t)len, variant); else drv_can_create(pdu, cid, srcp, (uint16_t)len, variant);
+                if (brief) drv_canbrief_setpayload(pdu, cid, srcp, (uint16_t)len, variant);
+                else if (!fixed || !drv_can_create_fixed(pdu, cid, srcp, (uint16_t)len, variant)) drv_can_create(pdu, cid, srcp, (uint16_t)len, variant);
+                else per_entry["entry.build.create_fixed_size_object"]++;
                 m_payload(); mset("EFF", cid > 0x7ff); mset("CAN_IDENTIFIER", cid); mset("FDF", (uint64_t)variant & 1); m_finalize();
                 kind = "create";
             }
